@@ -6,3 +6,4 @@ pub mod c07;
 pub mod scratch;
 pub mod c06;
 pub mod c03;
+pub mod c04;
